@@ -83,6 +83,8 @@ def res_sx(r):
 
 def to_line(d):
     op = d["op"]
+    if op == "solver":
+        return None        # constructing the solver object early does not touch the problem
     if op == "problem":
         return f"(problem {q(d['name'])} {opt(d.get('horizon'))})"
     if op == "task":
@@ -123,6 +125,7 @@ class Real:
         self.objectives = []
         self.buffers = {}
         self.results = []
+        self.early_solver = None
 
     # registries that mirror the model's ids
     def selects(self):
@@ -159,6 +162,9 @@ class Real:
 
     def _do(self, d):
         op = d["op"]
+        if op == "solver":
+            self.early_solver = ps.SchedulingSolver(problem=self.problem)
+            return
         if op == "problem":
             kw = {"name": d["name"]}
             if d.get("horizon") is not None:
@@ -213,7 +219,8 @@ class Real:
             return ps.SchedulingSolver(problem=self.problem, **cfg)
 
     def initialize(self, **cfg):
-        s = self.solver(**cfg)
+        s = self.early_solver if (self.early_solver is not None and not cfg
+                                  and self.early_solver.problem is self.problem) else self.solver(**cfg)
         with quiet():
             s.initialize()
         return s
